@@ -354,6 +354,13 @@ pub fn bytes_from(seed: u64, n: usize) -> Vec<u8> {
     match seed {
         0 => vec![0; n],
         1 => vec![0xFF; n],
+        // one pseudo-random 16- / 32-byte block repeated: every seed-sized chunk of the string is
+        // the same value (equal helper seeds, equal IDPF keys, blind = seed, …)
+        2 | 3 => {
+            let w = if seed == 2 { 16 } else { 32 };
+            let block = expand(seed, 9, w);
+            (0..n).map(|i| block[i % w]).collect()
+        }
         s => expand(s, 9, n),
     }
 }
@@ -370,7 +377,9 @@ pub fn seed_strategy() -> BoxedStrategy<u64> {
     prop_oneof![
         1 => Just(0u64),
         1 => Just(1u64),
-        18 => any::<u64>(),
+        1 => Just(2u64),
+        1 => Just(3u64),
+        20 => any::<u64>(),
     ]
     .boxed()
 }
